@@ -104,6 +104,19 @@ Definition decode_transfer (m : rawmsg) : res transfer :=
   | Some c => do x <- decode [] msg_ty c; transfer_of_value (fst x) (rm_mode m)
   end.
 
+(* wallet.ContractDeploy{Workchain, Code, Data, Body, Amount}.ToInternal: a Message
+   to (Workchain, hash of the StateInit cell of code and data) carrying that
+   StateInit, bounceable, mode 3; code and data are required *)
+Definition deploy_stateinit (code data : ctree) : ctree := CT [false; false; true; true; false] [code; data].
+Definition deploy_transfer (chash : cell -> res bytes) (wc : Z) (code data : option ctree) (body : option ctree)
+           (amount : N) : res transfer :=
+  match code, data with
+  | Some c, Some d =>
+      do h <- chash (cell_of_ct (deploy_stateinit c d));
+      Ok (mktr amount wc (bytes_to_bits h) true body (Some (c, d)) 3)
+  | _, _ => Err EWallet
+  end.
+
 (* a list of transfers *)
 Fixpoint internal_msgs (ts : list transfer) : res (list rawmsg) :=
   match ts with
